@@ -246,6 +246,31 @@ func (r *recorder) log(id int, m string, args []string, a wrAns) {
 	}
 	r.calls = append(r.calls, s+" = "+a.String())
 }
+
+// panicLog is deferred by every recorded proxy method: a panic inside the base is recorded as the
+// base's answer to that call and propagates unchanged.
+func (r *recorder) panicLog(id int, m string, args []string) {
+	if x := recover(); x != nil {
+		r.log(id, m, args, wrAns{val: "u", err: "P" + wrHex(wrPanicText(x)), obj: -1})
+		panic(x)
+	}
+}
+
+// times travel as Unix nanoseconds; "0" is the zero time.Time
+func wrTimeTok(t time.Time) string {
+	if t.IsZero() {
+		return "0"
+	}
+	return strconv.FormatInt(t.UnixNano(), 10)
+}
+func wrTime(tok string) time.Time {
+	n := wrInt(tok)
+	if n == 0 {
+		return time.Time{}
+	}
+	return time.Unix(0, int64(n))
+}
+
 func (r *recorder) wrapFile(f avfs.File) *recFile {
 	r.next++
 	return &recFile{b: f, id: r.next, rec: r}
@@ -877,7 +902,9 @@ func wrGenArgs(r *rng, file bool, m string) []string {
 		}
 		return wrS(string(b))
 	}
-	id := func() string { return wrI([]int{0, 1, 1, 42}[r.intn(4)]) }
+	ids := wrIDPairs[r.intn(len(wrIDPairs))] // (-1,x), (x,-1), (-1,-1), (0,0), (42,42), ...
+	nid := 0
+	id := func() string { nid++; return wrI(ids[(nid-1)%2]) }
 	if file {
 		switch m {
 		case "Chmod":
@@ -887,17 +914,17 @@ func wrGenArgs(r *rng, file bool, m string) []string {
 		case "Read":
 			return []string{wrI([]int{0, 1, 5, 64}[r.intn(4)])}
 		case "ReadAt":
-			return []string{wrI([]int{1, 5, 64}[r.intn(3)]), wrI(r.intn(3))}
+			return []string{wrI([]int{0, 1, 5, 64}[r.intn(4)]), wrI(wrOffsets[r.intn(len(wrOffsets))])}
 		case "ReadDir", "Readdirnames":
 			return []string{wrI([]int{-1, 0, 1, 2}[r.intn(4)])}
 		case "Seek":
-			return []string{wrI([]int{0, 0, 1, 3}[r.intn(4)]), wrI(r.intn(3))}
+			return []string{wrI(wrOffsets[r.intn(len(wrOffsets))]), wrI(wrWhences[r.intn(len(wrWhences))])}
 		case "Truncate":
-			return []string{wrI([]int{16, 20, 0, 3}[r.intn(4)])}
+			return []string{wrI(wrSizes[r.intn(len(wrSizes))])}
 		case "Write", "WriteString":
 			return []string{data()}
 		case "WriteAt":
-			return []string{data(), wrI(r.intn(4))}
+			return []string{data(), wrI(wrOffsets[r.intn(len(wrOffsets))])}
 		}
 		return nil
 	}
@@ -914,7 +941,8 @@ func wrGenArgs(r *rng, file bool, m string) []string {
 	case "Chown", "Lchown":
 		return []string{p(), id(), id()}
 	case "Chtimes":
-		return []string{p(), wrI(3000000000000 + r.intn(5)), wrI(4000000000000 + r.intn(5))}
+		// "0" is the zero time.Time
+		return []string{p(), wrI(wrTimes[r.intn(len(wrTimes))]), wrI(wrTimes[r.intn(len(wrTimes))])}
 	case "CreateTemp", "MkdirTemp":
 		return []string{wrS(r.pick([]string{"/tmp", "/tmp", "/tmp/d1", "/tmp/nope"})), wrS("vt.*.z")}
 	case "Glob":
@@ -940,7 +968,11 @@ func wrGenArgs(r *rng, file bool, m string) []string {
 		return []string{p(), p()}
 	case "OpenFile":
 		fl := 0
-		if !r.chance(2, 5) {
+		switch {
+		case r.chance(1, 3): // O_RDONLY
+		case r.chance(1, 3): // a single flag bit (O_TRUNC alone is O_RDONLY|O_TRUNC, ...)
+			fl = wrFlagBits[r.intn(len(wrFlagBits))]
+		default:
 			for _, b := range wrFlagBits {
 				if r.chance(1, 3) {
 					fl |= b
@@ -955,7 +987,7 @@ func wrGenArgs(r *rng, file bool, m string) []string {
 	case "SetUser", "SetUserByName":
 		return []string{wrS(r.pick([]string{"root", "u1", "nobody"}))}
 	case "Truncate":
-		return []string{p(), wrI([]int{16, 20, 0, 3}[r.intn(4)])}
+		return []string{p(), wrI(wrSizes[r.intn(len(wrSizes))])}
 	case "WriteFile":
 		return []string{np(), data(), mode()}
 	}
@@ -994,6 +1026,13 @@ func wrAbsify(baseKind string, file bool, m string, a []string) []string {
 		if b := path.Base(wrStr(a[0])); b != "f1" && b != "f2" && b != "b" && b != "nope" {
 			a[0] = wrS("/tmp/f1")
 		}
+		// ... and neither does a Link whose new name lies below a regular file
+		if len(a) > 1 {
+			switch path.Base(path.Dir(wrStr(a[1]))) {
+			case "f1", "f2", "b", "h1":
+				a[1] = wrS("/tmp/a")
+			}
+		}
 	case "Symlink", "Rel", "SameFile":
 		fix(0)
 		fix(1)
@@ -1001,6 +1040,114 @@ func wrAbsify(baseKind string, file bool, m string, a []string) []string {
 		fix(0)
 	}
 	return a
+}
+
+// argument boundaries
+var wrIDPairs = [][2]int{{-1, 1}, {42, -1}, {-1, -1}, {0, 0}, {42, 42}, {1, 1}, {0, 1}, {-1, 0}, {0, -1}}
+var wrSizes = []int{-1, 0, 3, 16, 20, 4096}
+var wrOffsets = []int{-1, 0, 1, 2, 3, 100}
+var wrWhences = []int{0, 1, 2, 3, -1}
+var wrTimes = []int{0, 1, 3000000000000, 3000000000004, 4000000000001}
+
+// wrBoundaryArgs: the argument tuples a focused search tries first on every target object.
+func wrBoundaryArgs(file bool, m string) [][]string {
+	var res [][]string
+	ints := func(xs []int, rest ...string) {
+		for _, x := range xs {
+			res = append(res, append([]string{wrI(x)}, rest...))
+		}
+	}
+	pathsFor := []string{"/tmp/f1", "/tmp/d1", "/tmp/d1/f2", "/tmp/l1", "/tmp/nope"}
+	if file {
+		switch m {
+		case "Chown":
+			for _, p := range wrIDPairs {
+				res = append(res, []string{wrI(p[0]), wrI(p[1])})
+			}
+		case "Truncate":
+			ints(wrSizes)
+		case "Chmod":
+			ints([]int{0, 0o644, 0o777, 0o7777})
+		case "Seek":
+			for _, wh := range wrWhences {
+				for _, off := range wrOffsets {
+					res = append(res, []string{wrI(off), wrI(wh)})
+				}
+			}
+		case "ReadAt":
+			for _, off := range wrOffsets {
+				res = append(res, []string{"4", wrI(off)})
+			}
+		case "WriteAt":
+			for _, off := range wrOffsets {
+				res = append(res, []string{wrS("Q"), wrI(off)})
+			}
+			res = append(res, []string{wrS(""), "0"})
+		case "Write", "WriteString":
+			res = append(res, []string{wrS("")}, []string{wrS("Q")})
+		case "Read":
+			ints([]int{0, 1, 64})
+		case "ReadDir", "Readdirnames":
+			ints([]int{-1, 0, 1, 100})
+		}
+		return res
+	}
+	switch m {
+	case "Chown", "Lchown":
+		for _, pa := range pathsFor {
+			for _, p := range wrIDPairs {
+				res = append(res, []string{wrS(pa), wrI(p[0]), wrI(p[1])})
+			}
+		}
+	case "Truncate":
+		for _, pa := range pathsFor {
+			for _, sz := range wrSizes {
+				res = append(res, []string{wrS(pa), wrI(sz)})
+			}
+		}
+	case "Chtimes":
+		for _, pa := range pathsFor {
+			res = append(res, []string{wrS(pa), "0", "0"}, []string{wrS(pa), "0", "4000000000001"}, []string{wrS(pa), "3000000000000", "0"})
+		}
+	case "Chmod", "Mkdir", "MkdirAll":
+		for _, pa := range append(pathsFor, "/tmp/a") {
+			for _, mo := range []int{0, 0o644, 0o777, 0o7777} {
+				res = append(res, []string{wrS(pa), wrI(mo)})
+			}
+		}
+	case "OpenFile":
+		flags := []int{0}
+		flags = append(flags, wrFlagBits...)
+		flags = append(flags, os.O_CREATE|os.O_EXCL, os.O_TRUNC|os.O_SYNC, os.O_APPEND|os.O_TRUNC, os.O_RDWR|os.O_TRUNC, 0x80000, -1)
+		for _, pa := range []string{"/tmp/f1", "/tmp/d1/f2", "/tmp/newfile", "/tmp/d1"} {
+			for _, fl := range flags {
+				res = append(res, []string{wrS(pa), wrI(fl), "420"})
+			}
+		}
+	case "Sub":
+		for _, pa := range []string{"/", "/tmp", "/tmp/", ".", "", "/tmp/d1", "/tmp/../tmp", "/tmp/f1", "/tmp/l2"} {
+			res = append(res, []string{wrS(pa)})
+		}
+	case "Open", "Create", "Remove", "RemoveAll", "WriteFile", "Symlink", "Link", "Rename":
+		// path boundaries
+		for _, pa := range []string{"/tmp/f1", "/tmp/d1", "/tmp/nope", "", "/tmp/f1/", "/tmp/l1"} {
+			switch m {
+			case "WriteFile":
+				res = append(res, []string{wrS(pa), wrS(""), "420"}, []string{wrS(pa), wrS("Q"), "0"})
+			case "Symlink", "Link", "Rename":
+				if pa != "" {
+					res = append(res, []string{wrS(pa), wrS("/tmp/a")}, []string{wrS("/tmp/d1/f2"), wrS(pa)})
+				}
+			case "Remove", "RemoveAll":
+				if pa != "" {
+					res = append(res, []string{wrS(pa)})
+				}
+			default:
+				res = append(res, []string{wrS(pa)})
+			}
+		}
+	}
+	return res
 }
 
 var wrHeavyV = []string{"OpenFile", "OpenFile", "Open", "Open", "Sub", "WriteFile", "Mkdir", "Remove", "Rename", "Create", "Chmod",
@@ -1025,6 +1172,13 @@ func (w *wrWorld) genOp(r *rng, nextBind *int) wrOp {
 		m = r.pick(wrHeavyV)
 	} else {
 		m = wrVFSMethods[r.intn(len(wrVFSMethods))]
+	}
+	if m == "RemoveAll" && !o.isFile {
+		// as a non-administrator MemFS.RemoveAll removes children in map order until the first one it
+		// may not remove: the resulting tree is not a function of the history, a twin cannot follow it
+		if u := w.B.User(); wrIsNil(u) || !u.IsAdmin() {
+			m = "Remove"
+		}
 	}
 	*nextBind++
 	return wrOp{obj: id, file: o.isFile, m: m, bind: *nextBind, args: wrAbsify(w.baseKind, o.isFile, m, wrGenArgs(r, o.isFile, m))}
@@ -1092,7 +1246,10 @@ func wrSweepOps(baseKind string) []wrOp {
 		wrOp{obj: 8, m: "Mkdir", bind: bind + 2, args: []string{wrS("/b"), "493"}})
 	for _, fid := range []int{1, 2, 4, 5, 6} {
 		ops = append(ops, wrOp{obj: fid, file: true, m: "Close", bind: bind + 3})
-		ops = append(ops, wrOp{obj: fid, file: true, m: "Read", bind: bind + 4, args: []string{"4"}})
+		// every File method on the CLOSED handle (Close included)
+		for _, m := range wrFileMethods {
+			ops = append(ops, wrOp{obj: fid, file: true, m: m, bind: bind + 4, args: wrGenArgs(r, true, m)})
+		}
 	}
 	return ops
 }
@@ -1131,12 +1288,37 @@ func wrFocusOps(baseKind, fm string, seed uint64) []wrOp {
 		{obj: 0, m: "Sub", bind: 3, args: []string{wrS("/tmp")}}, {obj: 0, m: "OpenFile", bind: 4, args: []string{wrS("/tmp/d1/f2"), wrI(os.O_RDWR), "0"}},
 		{obj: 0, m: "Create", bind: 5, args: []string{wrS("/tmp/b")}}, {obj: 0, m: "CreateTemp", bind: 6, args: []string{wrS("/tmp"), wrS("vt.*.z")}},
 		{obj: 3, m: "Open", bind: 7, args: []string{wrS("/f1")}}}
+	// 8: a handle that is already closed, 9: a directory handle obtained through the sub file system
+	ops = append(ops, wrOp{obj: 0, m: "Open", bind: 8, args: []string{wrS("/tmp/d1/f2")}}, wrOp{obj: 8, file: true, m: "Close", bind: 0},
+		wrOp{obj: 3, m: "Open", bind: 9, args: []string{wrS("/d1")}})
 	bind := 20
+	targets := []int{0, 3}
+	if file {
+		targets = []int{1, 2, 4, 5, 6, 7, 8, 9}
+	}
+	bounds := wrBoundaryArgs(file, m)
+	if seed%2 == 1 { // odd repetitions: boundaries on a rotating subset of targets, then random
+		targets = targets[int(seed/2)%len(targets):]
+	}
+	for _, a := range bounds {
+		for _, id := range targets {
+			bind++
+			ops = append(ops, wrOp{obj: id, file: file, m: m, bind: bind, args: wrAbsify(baseKind, file, m, append([]string(nil), a...))})
+			if !file && (m == "Open" || m == "OpenFile" || m == "Create") {
+				ops = append(ops, wrOp{obj: bind, file: true, m: "Write", bind: 0, args: []string{wrS("Z")}},
+					wrOp{obj: bind, file: true, m: "Close", bind: 0})
+			}
+			if !file && m == "Sub" {
+				ops = append(ops, wrOp{obj: bind, m: "WriteFile", bind: 0, args: []string{wrS("/tmp/zz"), wrS("x"), "420"}},
+					wrOp{obj: bind, m: "Mkdir", bind: 0, args: []string{wrS("/zd"), "493"}})
+			}
+		}
+	}
 	for i := 0; i < 30; i++ {
 		bind++
 		var id int
 		if file {
-			id = []int{1, 2, 4, 5, 6, 7}[r.intn(6)]
+			id = []int{1, 2, 4, 5, 6, 7, 8, 9}[r.intn(8)]
 		} else {
 			id = []int{0, 0, 3}[r.intn(3)]
 		}
@@ -1164,16 +1346,14 @@ func wrFlagSweepOps() []wrOp {
 				fl |= b
 			}
 		}
-		name := "/tmp/f1"
-		if c%3 == 1 {
-			name = "/tmp/newfile"
+		for _, name := range []string{"/tmp/f1", "/tmp/newfile"} {
+			bind++
+			ops = append(ops, wrOp{obj: 0, m: "OpenFile", bind: bind, args: []string{wrS(name), wrI(fl), "420"}})
+			if c%5 == 0 {
+				ops = append(ops, wrOp{obj: bind, file: true, m: "Write", bind: 0, args: []string{wrS("W")}})
+			}
+			ops = append(ops, wrOp{obj: bind, file: true, m: "Close", bind: 0})
 		}
-		bind++
-		ops = append(ops, wrOp{obj: 0, m: "OpenFile", bind: bind, args: []string{wrS(name), wrI(fl), "420"}})
-		if c%5 == 0 {
-			ops = append(ops, wrOp{obj: bind, file: true, m: "Write", bind: 0, args: []string{wrS("W")}})
-		}
-		ops = append(ops, wrOp{obj: bind, file: true, m: "Close", bind: 0})
 	}
 	return ops
 }
@@ -1324,6 +1504,13 @@ func runWrap(cfg config, kind string) {
 					if kind == "failfs" {
 						rr, _ := wrRunHistory(kind, baseKind, uint64(2+rep), "ro", fops, nil, 0, cover)
 						emit(rr)
+						// ... and with the method's own id failed at its first invocations
+						if fn := wrExpectedFn(strings.HasPrefix(fm, "F."), fm[2:]); fn != "" && rep < 2 {
+							for k := 0; k < 6; k++ {
+								rr, _ := wrRunHistory(kind, baseKind, uint64(2+rep), fmt.Sprintf("%s:%d", fn, k), fops, nil, 0, cover)
+								emit(rr)
+							}
+						}
 					}
 				}
 			}
@@ -1374,7 +1561,7 @@ func runWrap(cfg config, kind string) {
 			rr, _ := wrRunHistory(kind, baseKind, 1, "none", ops, nil, 0, cover)
 			emit(rr)
 			o.count("history:systematic")
-			if len(ops) < 150 || cfg.tier == "thorough" {
+			if len(ops) < 150 || cfg.tier == "thorough" { // the long sweeps get their fault plans in the thorough tier
 				runPlans(baseKind, 1, ops, rr.counts)
 			}
 		}
